@@ -64,9 +64,12 @@ RENDER_TIE = ("TRANSLATED tie of the Mermaid renderers: tools/extract_render.py 
               "__mermaid_task_state / __mermaid_task / __src into a PyLite program on every run; C19_source_* (Props/C19Src.lean, Lemmas/RenderSrc*.lean) "
               "prove, for every string library whose encoding round-trips, every view (members, title, flags, clock, style texts) and task "
               "description: the network label (quotes removed, both braces escaped) and the whole network source (one edge per predecessor, "
-              "Start edges, style lines) are the model's; the Gantt task state (milestone / done / active) and task line are the model's. The "
-              "Gantt __src (title, weekends, tick interval, grouping into sections) is tied by kernel-evaluated runs on concrete views (tests at "
-              "the level of the kernel). Not translated: the DHTMLX renderer, to_html and the templates. 10 semantic edits tried, all caught. ")
+              "Start edges, style lines) are the model's; the Gantt task state (milestone / done / active), the task line and the whole Gantt "
+              "source (header lines, sections in first-occurrence order, task lines in WBS order; for section values that are strs) are the "
+              "model's. DhtmlxGantt.__data (entries and links) is translated too (tools/extract_dhtmlx.py) and tied by kernel-evaluated runs on "
+              "concrete WBSs (tests at the level of the kernel: nested tasks, milestone, outside predecessors / parents, user attributes named "
+              "like entry keys, 72 progress cases, every forest on three tasks with every single link). Not translated: to_html, templates, "
+              "columns, scales. 10 + 13 semantic edits tried, all caught. ")
 
 PRINT_TIE = ("TRANSLATED tie of the sheet printer: tools/extract_print.py turns _Repr of task.py (cell texts, layout numbers, row sequence, "
              "repr) into a PyLite program on every run; C20_source_* (Props/C20Src.lean, Lemmas/PrintSrc*.lean) prove, for every string library "
@@ -76,12 +79,14 @@ PRINT_TIE = ("TRANSLATED tie of the sheet printer: tools/extract_print.py turns 
              "or a str; repr returns the model's sheet (header row + rows of every listed task); the two width functions are the model's. "
              "TextTable / colored_text are a primitive whose meaning is the model's render. 11 semantic edits tried, all caught. ")
 
-CSV_TIE = ("TRANSLATED tie of CSV I/O (write side complete, read side partial): tools/extract_csv.py turns the cell parsers / formatters, "
+CSV_TIE = ("TRANSLATED tie of CSV I/O: tools/extract_csv.py turns the cell parsers / formatters, "
            "read_csv, write_csv (io/csv_io.py) and tasks_to_raws / raws_to_wbs (io/raw.py) into a PyLite program on every run; C13_source_* "
            "(Props/C13Src.lean, Lemmas/CsvSrc*.lean) prove, for every meaning of the built-ins (csv module = the model's Csv functions, "
            "strftime / strptime, float(), int(), str()): every cell parser and __format_custom, __parse_header = the model's headerIndex, and "
-           "write_csv of a well-formed WBS description = the model's writeCsv of the records. read_csv is proved down to the record layer "
-           "(success direction); raws_to_wbs = rebuildForest and the error cases are tied by kernel-evaluated runs on concrete files (tests "
+           "write_csv of a well-formed WBS description = the model's writeCsv of the records; read_csv (success direction, C13_source_read_csv): "
+           "for rows with parseable standard cells, pairwise different ids, predecessor ids naming rows and acyclic parent ids the run "
+           "returns the store whose roots, children, parents, predecessor lists and task order are given in closed form over the row table. "
+           "The last step to the model's literal rebuildForest and the error cases are tied by kernel-evaluated runs on concrete files (tests "
            "at the level of the kernel). 12 semantic edits tried: 8 leave the fragment, 4 fail the runs. ")
 
 LOOPS_TIE = ("TRANSLATED tie of the inner loops: tools/extract_schedule.py turns, on every run, _ResourceUsage.reserved/reserve/__get_key and both "
